@@ -101,7 +101,8 @@ def run(rep: Report, tier: str) -> None:
     ok_dispatch = False
     for n in walk_no_nested(fcc.node):
         if isinstance(n, ast.Call) and isinstance(n.func, ast.Attribute) and n.func.attr == "check_without_mask":
-            ok_dispatch = [src(a) for a in n.args] == ["from_type", "to_type"] and not n.keywords
+            params_ = [x.arg for x in fcc.node.args.args if x.arg != "cls"]
+            ok_dispatch = [src(a) for a in n.args] == params_[:2] and not n.keywords
     rep.instance("R09.1", "dispatch/check_cast", nontrivial=True)
     if not ok_dispatch:
         rep.add(Finding("R09.1", "R09.1/dispatch/check_cast", fcc.module.rel, fcc.node.lineno, fcc.qualname,
@@ -123,41 +124,35 @@ def run(rep: Report, tier: str) -> None:
                             P.module(DT).assigns["COMP_NAME_MAPPING"].lineno, "COMP_NAME_MAPPING",
                             f"cast to {docname} renames the measure to {cnm.get(cv)!r}; docs say {doc_names.get(docname)!r}"))
     fdv = P.func(f"{CAST}.dataset_validation")
-    rename_if = None
-    for n in walk_no_nested(fdv.node):
-        if isinstance(n, ast.If):
-            def branch_kind(body: List[ast.stmt]) -> Optional[str]:
-                for st in body:
-                    if isinstance(st, ast.Assign) and len(st.targets) == 1 and isinstance(st.targets[0], ast.Name):
-                        if any(isinstance(x, ast.Name) and x.id == "COMP_NAME_MAPPING" for x in ast.walk(st.value)):
-                            return "rename"
-                        if isinstance(st.value, ast.Attribute) and st.value.attr == "name":
-                            return "keep"
-                return None
-            kinds = (branch_kind(n.body), branch_kind(n.orelse))
-            if set(kinds) == {"rename", "keep"}:
-                rename_if = (n, kinds)
-    if rename_if is None:
-        raise AnalysisError("Cast.dataset_validation: rename/keep branch on COMP_NAME_MAPPING not found (anchor changed)")
-    ifnode, kinds = rename_if
+    from sa import structmodel as _sm
+    from sa.e6 import Unmodelled as _Unm
+    _M = _sm.Model(P)
     for a in dtypes:
         for b in dtypes:
             if not accept[(a, b)]:
                 continue
-            it = Interp(P)
-            env = {"to_type": b, "from_type": a, "cls": ClassVal(CAST)}
+            ds = _M.ds("DS_1", ["A"], ["M"])
+            ds.components["M"].data_type = a
+            ext = {"copy": lambda x: _sm.MComp(x.name, x.role, x.data_type, x.nullable) if isinstance(x, _sm.MComp) else x,
+                   "Component": lambda **kw: _sm.MComp(kw["name"], kw["role"], kw.get("data_type"), kw.get("nullable", True)),
+                   "Dataset": _M.mk_dataset, "VirtualCounter._new_ds_name": lambda: "__VDS__", "cls.check_cast": lambda *x: None}
             try:
-                c = it.truth(it.eval(ifnode.test, env, fdv))
+                res = Interp(P, externals=ext).call(fdv, {"operand": ds, "to_type": b, "mask": None}, bound_cls=ClassVal(CAST))
             except Raised as r:
-                raise AnalysisError(f"rename condition raised {r.exc} for {rev[a]}->{rev[b]}")
-            renamed = (kinds[0] if c else kinds[1]) == "rename"
+                raise AnalysisError(f"Cast.dataset_validation raised {r.exc} for {rev[a]}->{rev[b]}")
+            except _Unm as e:
+                raise AnalysisError(f"Cast.dataset_validation outside the evaluator's language: {e}")
+            ms = [c_.name for c_ in res.get_measures()]
+            if len(ms) != 1:
+                raise AnalysisError(f"Cast.dataset_validation: result of {rev[a]}->{rev[b]} has measures {ms}")
+            renamed = ms[0] != "M"
             want = b not in doc_set(doc_impl, a)
             key = f"{rev[a]}->{rev[b]}"
             rep.instance("R09.2", f"rename/{key}", nontrivial=a != b)
-            if renamed != want:
-                rep.add(Finding("R09.2", f"R09.2/rename/{key}", fdv.module.rel, ifnode.lineno, fdv.qualname,
-                                f"cast {key} on a dataset: measure is {'renamed' if renamed else 'kept'}; documented rule: "
-                                f"{'renamed (not an implicit promotion)' if want else 'kept (implicit promotion)'}"))
+            if renamed != want or (renamed and ms[0] != cnm.get(b)):
+                rep.add(Finding("R09.2", f"R09.2/rename/{key}", fdv.module.rel, fdv.node.lineno, fdv.qualname,
+                                f"cast {key} on a dataset: the measure M comes out as {ms[0]!r}; documented rule: "
+                                f"{'renamed to ' + repr(cnm.get(b)) + ' (not an implicit promotion)' if want else 'kept (implicit promotion)'}"))
 
     # ---- R09.3 ---------------------------------------------------------------------------------------
     fce = P.func(f"{TRANSPILER}._cast_expr")
